@@ -316,3 +316,11 @@ Theorem C02_engine_array_current : forall (V F A : Type) (nops : num_ops V F) (n
   = np_array (List.map (tok_val nops) (normal_items d subs (body_lines file (mkspos first last title)))).
 Proof. exact engine_array_pin. Qed.
 Print Assumptions C02_engine_array_current.
+
+(* the splitter handed to the sniffer and to the normal engine: DataRead.split_line d IS what
+   reader.define_line_splitter returns for "SPACE" / "COMMA" / "TAB" today (py_define_line_splitter, re-translated
+   on this run; each match presented as "".join of its groups; any other name: KeyError) *)
+Theorem C02_line_splitter_current : forall delim line,
+  py_define_line_splitter delim line = option_map (fun d => split_line d line) (dlm_of_name delim).
+Proof. exact line_splitter_pin. Qed.
+Print Assumptions C02_line_splitter_current.
